@@ -7,6 +7,7 @@ Line-protocol commands of the Client family (`cli …`, `nl …`).
 ```
 cli new <seq0> <bufLen> <closeOk>          → ok
 cli plans <plan> …                         → ok        plan = P<0|1>[,item]…   (one per coming request)
+cli enqueue <item> …                       → ok        unsolicited traffic put on the receive queue
       item = i | a | f | n | r<hex> | x<delta>:<hex>  (EINTR, EAGAIN, hard failure, no messages,
              datagram, datagram whose sequence field is overwritten by own+delta)
 cli <op> <args>                            → ret=<class> data=<d> sent=<typ.flags.seq.hex;…> recvs=<n> pending=<n,…> closes=<n> queue=<n>
@@ -200,6 +201,16 @@ def cmd (s : State) (args : List String) : State × String :=
         | _ => false
       if tooBig then (s, "unmodelled:datagram-exceeds-receive-buffer")
       else ({ s with st := (step s.st (.plans ps)).1 }, "ok")
+    | none => (s, "bad-op")
+  | "enqueue" :: ws =>
+    match ws.mapM parseItem with
+    | some its =>
+      let tooBig := its.any fun it =>
+        match it.item with
+        | .raw b => b.length > s.st.buf.length
+        | _ => false
+      if tooBig then (s, "unmodelled:datagram-exceeds-receive-buffer")
+      else ({ s with st := (step s.st (.enqueue (its.map (·.item)))).1 }, "ok")
     | none => (s, "bad-op")
   | ["late"] => (s, hexList (s.refs.map (Ref.deref s.st.buf)))
   | ["fromwire", r, h] =>
